@@ -2,6 +2,7 @@
 import concurrent.futures as cf
 import multiprocessing
 import os
+import sys
 import subprocess
 import tempfile
 import time
@@ -95,6 +96,53 @@ def _qf_text(smt2):
         return None
 
 
+def _nla_text(smt2):
+    """The query with every NONLINEAR real product / quotient replaced by an uninterpreted function application
+    (congruence only).  Weaker than the input: only its ``unsat`` counts.  None if the query is linear."""
+    try:
+        fs = list(z3.parse_smt2_string(smt2))
+    except z3.Z3Exception:
+        return None
+    R = z3.RealSort()
+    mul = z3.Function("nl$mul", R, R, R)
+    div = z3.Function("nl$div", R, R, R)
+    cache, hit = {}, [0]
+
+    def ab(e):
+        k = e.get_id()
+        if k in cache:
+            return cache[k]
+        if z3.is_quantifier(e) or not z3.is_app(e) or e.num_args() == 0 or z3.is_rational_value(z3.simplify(e)):
+            r = z3.simplify(e) if (z3.is_app(e) and e.num_args() > 0 and not z3.is_quantifier(e)) else e
+        else:
+            ch = [ab(c) for c in e.children()]
+            kind = e.decl().kind()
+            if kind == z3.Z3_OP_MUL and e.sort() == R and len([c for c in ch if not z3.is_rational_value(c)]) >= 2:
+                non = [c for c in ch if not z3.is_rational_value(c)]
+                acc = non[0]
+                for c in non[1:]:
+                    acc = mul(acc, c)
+                for c in ch:
+                    if z3.is_rational_value(c):
+                        acc = c * acc
+                r = acc
+                hit[0] += 1
+            elif kind == z3.Z3_OP_DIV and not z3.is_rational_value(ch[1]):
+                r = div(ch[0], ch[1])
+                hit[0] += 1
+            else:
+                r = e.decl()(*ch)
+        cache[k] = r
+        return r
+    out = [ab(f) for f in fs]
+    if not hit[0]:
+        return None
+    sv = z3.Solver()
+    for f in out:
+        sv.add(f)
+    return sv.to_smt2()
+
+
 def _inst_text(smt2):
     """Ground-instantiated (weaker) version of a query, or None."""
     try:
@@ -155,6 +203,30 @@ def solve_one(job):
             secs += s0
             if r0 != "unknown":
                 return idx, r0, secs, b0, reason0
+            # counterexample-guided instantiation: decides both ways when the quantified hypotheses are finitely
+            # instantiable (unsat: weaker ground set refuted; sat: model validated against every quantified hypothesis)
+            t0 = time.time()
+            try:
+                rc, _m = cegar(list(z3.parse_smt2_string(smt2)), budget_s=min(tsec, 25))
+            except z3.Z3Exception:
+                rc = "unknown"
+            secs += time.time() - t0
+            if rc == "unsat":
+                return idx, rc, secs, "z3-5.1.0(counterexample-guided instantiation: ground instances refuted)", ""
+            if rc == "sat":
+                return idx, rc, secs, "z3-5.1.0(counterexample-guided instantiation: model validated against every quantified hypothesis)", ""
+            # nonlinear products / quotients as uninterpreted functions (weaker: only unsat counts)
+            if " (* " in smt2 or "(/ " in smt2:
+                t0 = time.time()
+                nla = _nla_text(smt2)
+                secs += time.time() - t0
+                if nla is not None:
+                    npath = _write_tmp(nla)
+                    paths.append(npath)
+                    rn, sn, bn, _ = _race([("z3-5.1.0", [Z3_BIN, "-T:10", "-memory:%d" % MEM_MB, npath])], 10)
+                    secs += sn
+                    if rn == "unsat":
+                        return idx, rn, secs, bn + "(nonlinear terms uninterpreted)", ""
             t0 = time.time()
             inst = _inst_text(smt2)
             secs += time.time() - t0
@@ -197,7 +269,13 @@ def discharge(obligations, timeout_ms=30000, use_cvc5=True, jobs=None):
     else:
         mp = multiprocessing.get_context("fork")
         with cf.ProcessPoolExecutor(max_workers=min(jobs, len(work)), mp_context=mp) as ex:
-            results = list(ex.map(solve_one, work, chunksize=1))
+            results = []
+            verbose = os.environ.get("VERIF_VERBOSE")
+            for res in ex.map(solve_one, work, chunksize=1):
+                results.append(res)
+                if verbose and res[2] > float(verbose):
+                    sys.stderr.write("  [%s %.1fs %s] %s\n" % (res[1], res[2], res[3][:40], obligations[res[0]].name[:150]))
+                    sys.stderr.flush()
     for idx, r, secs, backend, reason in results:
         ob = obligations[idx]
         ob.result, ob.seconds, ob.backend = r, secs, backend
@@ -220,6 +298,12 @@ def candidate_model(ob, timeout_ms=20000):
     for a native replay (which alone decides whether it is a counterexample)."""
     fs = list(ob.pc) + [z3.Not(ob.goal)]
     try:
+        m = cegar_model(fs)
+        if m is not None:
+            return m
+    except z3.Z3Exception:
+        pass
+    try:
         inst = instantiate_quantifiers(fs, budget_s=10.0)
     except z3.Z3Exception:
         return None
@@ -238,6 +322,12 @@ def confirm_candidate(ob, timeout_ms=20000):
     constants / arrays / functions, must have no falsifying instance.  A validated model is a genuine counter-model of
     the obligation (result becomes ``sat``); otherwise the obligation stays undecided."""
     fs = list(ob.pc) + [z3.Not(ob.goal)]
+    try:
+        m = cegar_model(fs)
+        if m is not None:
+            return m
+    except z3.Z3Exception:
+        pass
     try:
         inst = instantiate_quantifiers(fs, budget_s=10.0)
     except z3.Z3Exception:
@@ -270,6 +360,116 @@ def confirm_candidate(ob, timeout_ms=20000):
         if c.check() != z3.unsat:
             return None
     return m
+
+
+def cegar(formulas, rounds=60, budget_s=40.0, timeout_ms=10000):
+    """Counterexample-guided instantiation (model finding for a query with universally quantified hypotheses).
+    NNF + skolemisation, every formula prenexed to  forall cs. body  (body quantifier free); then repeat:
+      M := a model of the ground formulas and the instances collected so far;
+      for every quantified formula: is there a value of cs that falsifies body UNDER M (all symbols interpreted by M)?
+        yes -> add that instance;   no (for all of them) -> M satisfies every formula: a genuine model, returned.
+    Returns ("sat", M) | ("unsat", None) - the ground formulas with the collected instances are unsatisfiable, hence so
+    is the query - | ("unknown", None)."""
+    t_start = time.time()
+    g = z3.Goal()
+    for f in formulas:
+        g.add(f)
+    try:
+        out = z3.Then(z3.Tactic("simplify"), z3.Tactic("nnf"))(g)
+    except z3.Z3Exception:
+        return "unknown", None
+    if len(out) != 1:
+        return "unknown", None
+    fs = []
+    for f in out[0]:
+        fs.extend(f.children() if z3.is_and(f) else [f])
+    counter = [0]
+
+    def has_q(e):
+        return any(z3.is_quantifier(x) for x in _walk([e]))
+
+    def prenex(e):
+        if not has_q(e):
+            return [], e
+        if z3.is_quantifier(e):
+            if not e.is_forall():
+                raise ValueError("existential after skolemisation")
+            cs = []
+            for i in range(e.num_vars()):
+                counter[0] += 1
+                cs.append(z3.Const("cg!%s!%d" % (e.var_name(i), counter[0]), e.var_sort(i)))
+            vs, b = prenex(z3.substitute_vars(e.body(), *reversed(cs)))
+            return cs + vs, b
+        if z3.is_and(e) or z3.is_or(e):
+            allv, bodies = [], []
+            for c in e.children():
+                v, b = prenex(c)
+                allv += v
+                bodies.append(b)
+            return allv, (z3.And(*bodies) if z3.is_and(e) else z3.Or(*bodies))
+        raise ValueError("quantifier under %s" % e.decl().name())
+    ground, quants = [], []
+    try:
+        for f in fs:
+            cs, b = prenex(f)
+            (quants if cs else ground).append((cs, b))
+    except ValueError:
+        return "unknown", None
+    ground = [b for _, b in ground]
+    if not quants:
+        return "unknown", None
+    # seed: the pattern-guided ground instances (cheap, and usually almost enough)
+    if os.environ.get("VERIF_CEGAR_SEED"):
+        try:
+            seed = instantiate_quantifiers(formulas, budget_s=5.0)
+            if seed:
+                ground = ground + [f for f in seed if not has_q(f)]
+        except z3.Z3Exception:
+            pass
+    for rnd in range(rounds):
+        if time.time() - t_start > budget_s:
+            return "unknown", None
+        s = z3.Solver()
+        s.set("timeout", int(timeout_ms))
+        for f in ground:
+            s.add(f)
+        rr = s.check()
+        if rr != z3.sat:
+            if os.environ.get("VERIF_CEGAR_DEBUG"):
+                sys.stderr.write("cegar: ground set %s after %d formulas\n" % (rr, len(ground)))
+            return ("unsat", None) if rr == z3.unsat else ("unknown", None)
+        m = s.model()
+        added = False
+        for cs, body in quants:
+            # evaluate the body under M with cs kept symbolic (as de Bruijn variables during evaluation)
+            vars_ = [z3.Var(i, c.sort()) for i, c in enumerate(cs)]
+            bv = z3.substitute(body, *zip(cs, vars_))
+            ev = m.eval(bv, model_completion=True)
+            ev = z3.substitute_vars(ev, *cs)
+            c = z3.Solver()
+            c.set("timeout", 5000)
+            c.add(z3.Not(ev))
+            r = c.check()
+            if r == z3.unsat:
+                continue
+            if r != z3.sat:
+                if os.environ.get("VERIF_CEGAR_DEBUG"):
+                    sys.stderr.write("cegar: instance check unknown: %s\n" % ev.sexpr()[:400])
+                return "unknown", None
+            w = c.model()
+            vals = [w.eval(x, model_completion=True) for x in cs]
+            ground.append(z3.substitute(body, *zip(cs, vals)))
+            added = True
+        if not added:
+            if os.environ.get("VERIF_CEGAR_DEBUG"):
+                sys.stderr.write("cegar: validated model after %d rounds, %d formulas, %.1fs\n" % (rnd + 1, len(ground), time.time() - t_start))
+            return "sat", m
+    return "unknown", None
+
+
+def cegar_model(formulas, **kw):
+    r, m = cegar(formulas, **kw)
+    return m if r == "sat" else None
 
 
 def obligation_smt2(ob, ack=True):
@@ -352,6 +552,14 @@ def get_model(ob, timeout_ms=30000, extra=()):
     cvc5 supplies values for the scalar inputs and z3 completes the model with those pinned."""
     fs = list(ob.pc) + [z3.Not(ob.goal)]
     quick = min(int(timeout_ms), 15000)
+    if any(z3.is_quantifier(e) for e in _walk(fs)):
+        try:
+            m = cegar_model(fs + list(extra)) if extra else None
+            m = m or cegar_model(fs)
+            if m is not None:
+                return m
+        except z3.Z3Exception:
+            pass
     if extra:
         m = _api_model(fs + list(extra), quick)
         if m is not None:
